@@ -242,3 +242,45 @@ def check(ctx):
                 ctx.violation('R1.selector', fsite(f), 'the channel selector does not consume exactly one '
                               'canonical number of the documented kind', {'draws': len(dr)})
         ctx.guard('R1.selector', fsite(f), rs)
+    # ---------------------------------------------------------------- R5 what `dimensions()` is
+    # the kernels draw integrand.dimensions() numbers per call: the factories must store the
+    # `dimensions` argument (2nd parameter) there - not the map dimensions or the channel count - for
+    # every overload (with and without distributions), and the getters return their own member
+    facs = list(instances(p, 'hep::make_integrand')) + list(instances(p, 'hep::make_multi_channel_integrand'))
+    ctx.count('integrand factory instantiations', len(facs), 4)
+    for f in facs:
+        ctx.analysed(f)
+
+        def rfac(f=f):
+            s, ex = summarise(p, f)
+            r = s.ret
+            names = [q.name for q in f.params]
+            want = {'dimensions_': sym(names[1])}
+            if 'multi_channel' in f.qualname:
+                if len(names) < 5:
+                    raise AnalysisBroken('make_multi_channel_integrand does not have its five leading parameters')
+                want.update({'map_dimensions_': sym(names[3]), 'channels_': sym(names[4])})
+            for fn_, w_ in want.items():
+                got = T.fld(r, fn_)
+                w = '%s:%s' % (fsite(f), fn_)
+                if got == w_:
+                    ctx.holds('R5.factory_dimensions', w, '%s of the integrand is the factory argument `%s`'
+                              % (fn_, w_[1]))
+                else:
+                    ctx.violation('R5.factory_dimensions', w, '%s of the integrand built by the factory is not the '
+                                  'argument `%s`: the kernels then draw a different number of random numbers per '
+                                  'call than the caller asked for' % (fn_, w_[1]), {'stored': T.pretty(got)[:120]})
+        ctx.guard('R5', fsite(f), rfac)
+    for rec_, getters in (('hep::integrand', ('dimensions',)),
+                          ('hep::multi_channel_integrand', ('map_dimensions', 'channels'))):
+        for gname in getters:
+            for gf in instances(p, rec_ + '::' + gname):
+                def rget(gf=gf, gname=gname):
+                    s, ex = summarise(p, gf)
+                    if s.ret == T.fld(sym('this'), gname + '_'):
+                        ctx.holds('R5.getters', fsite(gf), '%s() returns %s_' % (gname, gname))
+                    else:
+                        ctx.violation('R5.getters', fsite(gf), '%s() does not return %s_' % (gname, gname),
+                                      {'returns': T.pretty(s.ret)[:120]})
+                ctx.guard('R5.getters', fsite(gf), rget)
+
